@@ -4,7 +4,9 @@
 // RefExp {bool has; int v; int e;} below whose operations are transcribed from [expected.object]: default = value-init T,
 // in_place / unexpect construction, copy / move (has_value of the source unchanged), emplace, swap,
 // value_or = has ? v : d, and_then(f) = has ? f(v) : unexpect(e), or_else(f) = has ? in_place(v) : f(e).
-// Masked as unspecified: the value of a moved-from NonTriv (the flag and a trivially copyable value/error are specified).
+// Masked as unspecified: the value of a moved-from NonTriv value or MErr error (the flag and trivially copyable values /
+// errors are specified).  After every monadic call on an lvalue / const lvalue the source must be unchanged (std copies).
+// An rvalue call that copies where std moves is not reported: the moved-from payload is masked, so both are accepted.
 //
 // Catalogue (probed with small test compiles against this tree, g++ 12 -std=c++20):
 //   exist + checked here : expected(), expected(in_place, v), expected(unexpect, e), copy / move ctor, copy / move / self
@@ -25,6 +27,7 @@
 #include "rc.hpp"
 #include "tracked.hpp"
 
+#include <limits>
 #include <utility>
 
 namespace {
@@ -39,6 +42,14 @@ struct Err { // error type: distinct from every value type, no implicit conversi
     explicit Err(int c) noexcept : code(c) { }
     friend auto operator==(Err a, Err b) noexcept -> bool { return a.code == b.code; }
 };
+struct MErr { // error type whose move constructor visibly modifies its source (payload becomes lt::moved_value) and whose
+              // lifetime is tracked: an lvalue monadic call that moves the error out of its source is observable
+    TCM c;
+    explicit MErr(int v) noexcept : c(v) { }
+    friend auto operator==(MErr const& a, MErr const& b) noexcept -> bool { return a.c.get() == b.c.get(); }
+};
+inline auto ecode(Err const& e) -> int { return e.code; }
+inline auto ecode(MErr const& e) -> int { return e.c.get(); }
 
 inline auto val(int x) -> int { return x; }
 inline auto val(long x) -> int { return static_cast<int>(x); }
@@ -100,15 +111,19 @@ char const* const code_names[] = {"expected()", "expected(in_place,v)", "expecte
     "expected(expected&&)", "copy-assign", "move-assign", "self copy-assign", "emplace(v)", "emplace()", "swap(x,y)", "swap(x,x)", "*x = v / error() = e", "move(x).value_or", "move(x).or_else",
     "operator*/->", "error()", "value_or", "and_then", "or_else", "unexpected<E>", "observe"};
 
-template <typename T>
+template <typename T, typename E>
 struct Exp {
-    using O = etl::expected<T, Err>;
-    static constexpr bool tracked = std::is_same_v<T, TCM>;
+    using O = etl::expected<T, E>;
+    static constexpr bool tval    = std::is_same_v<T, TCM>;  // moving the value is visible in its source
+    static constexpr bool terr    = std::is_same_v<E, MErr>; // moving the error is visible in its source
+    static constexpr bool tracked = tval || terr;
 
     struct M {
         RefExp r;
-        bool masked{false}; // value is a moved-from NonTriv
+        bool masked{false};  // value is a moved-from NonTriv
+        bool emasked{false}; // error is a moved-from MErr
         [[nodiscard]] auto vmasked() const -> bool { return r.has && masked; }
+        [[nodiscard]] auto errmasked() const -> bool { return !r.has && emasked; }
     };
     static auto compare(char const* name, O const& x, M const& m) -> std::string
     {
@@ -118,7 +133,7 @@ struct Exp {
             if (x.operator->() == nullptr) { return std::string(name) + ": operator-> is null although has_value()"; }
             if (!m.masked && val(*x) != m.r.v) { return std::string(name) + ": value is " + std::to_string(val(*x)) + ", reference " + std::to_string(m.r.v); }
         } else {
-            if (x.error().code != m.r.e) { return std::string(name) + ": error is " + std::to_string(x.error().code) + ", reference " + std::to_string(m.r.e); }
+            if (!m.emasked && ecode(x.error()) != m.r.e) { return std::string(name) + ": error is " + std::to_string(ecode(x.error())) + ", reference " + std::to_string(m.r.e); }
         }
         return "";
     }
@@ -152,12 +167,18 @@ struct Exp {
                 else if (code == Q_ERROR && mx.r.has) { code = Q_DEREF; }
                 if (stats > 1) { vf::count((std::string("op.") + code_names[code]).c_str()); }
                 bool is_query = code >= FIRST_QUERY && code != OBSERVE;
-                if (is_query && mx.vmasked()) { q_masked = true; }
+                if (is_query && (mx.vmasked() || mx.errmasked())) { q_masked = true; }
                 O& x = *sx.p;
                 O& y = *sy.p;
                 auto set = [&](RefExp r) {
                     mx.r      = r;
-                    mx.masked = false;
+                    mx.masked = mx.emasked = false;
+                };
+                // after a monadic call on an lvalue / const lvalue the source holds what it held before ([expected.object.monadic]:
+                // the & and const& overloads copy value() / error() into the result)
+                auto source_unchanged = [&](char const* what) -> std::string {
+                    auto e = compare("source", x, mx);
+                    return e.empty() ? e : std::string(what) + " modified the object it was called on: " + e;
                 };
                 switch (code) {
                 case C_DEFAULT: sx.make(), set(RefExp{}); break;
@@ -171,7 +192,7 @@ struct Exp {
                 }
                 case C_UNEXPECT: sx.make(etl::unexpect, v), set(RefExp::unexpect(v)); break;
                 case C_UNEXPECT_L: {
-                    Err e(v);
+                    E e(v);
                     sx.make(etl::unexpect, std::as_const(e));
                     set(RefExp::unexpect(v));
                     break;
@@ -180,14 +201,16 @@ struct Exp {
                 case C_MOVE: {
                     sx.make(std::move(y));
                     mx        = my;
-                    my.masked = tracked && my.r.has; // has_value() of the source is unchanged, a NonTriv value is moved-from
+                    my.masked  = tval && my.r.has; // has_value() of the source is unchanged, a NonTriv value is moved-from
+                    my.emasked = terr && !my.r.has; // ... and so is a moved-from MErr error
                     break;
                 }
                 case A_COPY: ((op.b & 1U) != 0 ? (x = y) : (x = std::as_const(y))), mx = my; break;
                 case A_MOVE: {
                     x         = std::move(y);
                     mx        = my;
-                    my.masked = tracked && my.r.has;
+                    my.masked  = tval && my.r.has;
+                    my.emasked = terr && !my.r.has;
                     break;
                 }
                 case A_SELF: {
@@ -204,14 +227,14 @@ struct Exp {
                         r = &x.emplace(v);
                     }
                     mx.r.emplace(v);
-                    mx.masked = false;
+                    mx.masked = mx.emasked = false;
                     if (r != x.operator->()) { err = "emplace returned a reference that is not the contained value"; }
                     break;
                 }
                 case EMPLACE_DEFAULT: {
                     x.emplace();
                     mx.r.emplace(0);
-                    mx.masked = false;
+                    mx.masked = mx.emasked = false;
                     break;
                 }
                 case SWAP_FREE: {
@@ -235,8 +258,9 @@ struct Exp {
                         mx.r.v    = v;
                         mx.masked = false;
                     } else {
-                        x.error() = Err(v);
-                        mx.r.e    = v;
+                        x.error()  = E(v);
+                        mx.r.e     = v;
+                        mx.emasked = false;
                     }
                     break;
                 }
@@ -255,14 +279,14 @@ struct Exp {
                     break;
                 }
                 case Q_ERROR: {
-                    Err& r1        = x.error();
-                    Err const& r2  = std::as_const(x).error();
-                    Err&& r3       = std::move(x).error(); // binds only
-                    Err const&& r4 = std::move(std::as_const(x)).error();
+                    E& r1        = x.error();
+                    E const& r2  = std::as_const(x).error();
+                    E&& r3       = std::move(x).error(); // binds only
+                    E const&& r4 = std::move(std::as_const(x)).error();
                     if (&r2 != &r1 || &r3 != &r1 || &r4 != &r1) {
                         err = "error() (4 forms) do not refer to one object";
-                    } else if (r2.code != mx.r.e) {
-                        err = "error() is " + std::to_string(r2.code) + ", reference " + std::to_string(mx.r.e);
+                    } else if (!mx.emasked && ecode(r2) != mx.r.e) {
+                        err = "error() is " + std::to_string(ecode(r2)) + ", reference " + std::to_string(mx.r.e);
                     }
                     break;
                 }
@@ -277,39 +301,49 @@ struct Exp {
                         got = (op.a & 1U) != 0 ? val(std::move(x).value_or(T(d))) : val(std::move(x).value_or(d));
                     }
                     if (!mx.vmasked() && got != want) { err = "value_or(" + std::to_string(d) + ") is " + std::to_string(got) + ", reference " + std::to_string(want); }
-                    if (code == Q_VALUE_OR_RV && mx.r.has && tracked) { mx.masked = true; } // value was moved out
+                    if (code == Q_VALUE_OR_RV && mx.r.has && tval) { mx.masked = true; } // value was moved out
+                    if (code == Q_VALUE_OR && err.empty()) { err = source_unchanged("value_or() const&"); }
                     break;
                 }
                 case Q_AND_THEN: {
                     // f: even value -> expected<long,Err>(in_place, 10v+1); odd value -> (unexpect, Err(v+100))
                     int calls = 0, seen = -1;
-                    auto f = [&](auto&& a) -> etl::expected<long, Err> {
+                    auto f = [&](auto&& a) -> etl::expected<long, E> {
                         ++calls;
                         seen = val(a);
-                        if (seen % 2 == 0) { return etl::expected<long, Err>(etl::in_place, seen * 10L + 1); }
-                        return etl::expected<long, Err>(etl::unexpect, seen + 100);
+                        if (seen % 2 == 0) { return etl::expected<long, E>(etl::in_place, seen * 10L + 1); }
+                        return etl::expected<long, E>(etl::unexpect, seen + 100);
                     };
                     auto fm = [](int a) { return a % 2 == 0 ? RefExp::in_place(a * 10 + 1) : RefExp::unexpect(a + 100); };
-                    auto check = [&](etl::expected<long, Err> const& r) {
+                    auto check = [&](etl::expected<long, E> const& r) {
                         if (calls != (mx.r.has ? 1 : 0)) {
                             err = "and_then called f " + std::to_string(calls) + " times although has_value() is " + b2s(mx.r.has);
                             return;
                         }
                         if (mx.vmasked()) { return; }
+                        if (mx.errmasked()) {
+                            if (r.has_value()) { err = "and_then on an error returned a value"; }
+                            return;
+                        }
                         auto want = mx.r.and_then(fm);
                         if (mx.r.has && seen != mx.r.v) {
                             err = "and_then passed " + std::to_string(seen) + " to f, the value is " + std::to_string(mx.r.v);
                         } else if (r.has_value() != want.has) {
                             err = std::string("and_then result has_value() is ") + b2s(r.has_value()) + ", reference " + b2s(want.has);
-                        } else if (want.has ? (*r != want.v) : (r.error().code != want.e)) {
-                            err = "and_then result holds " + std::to_string(want.has ? static_cast<int>(*r) : r.error().code) + ", reference " + std::to_string(want.has ? want.v : want.e);
+                        } else if (want.has ? (*r != want.v) : (ecode(r.error()) != want.e)) {
+                            err = "and_then result holds " + std::to_string(want.has ? static_cast<int>(*r) : ecode(r.error())) + ", reference " + std::to_string(want.has ? want.v : want.e);
                         }
                     };
                     if (mx.r.has) { chain_on_value = true; } else { chain_on_error = true; }
                     switch (op.b % 4) {
-                    case 0: check(x.and_then(f)); break;
-                    case 1: check(std::as_const(x).and_then(f)); break;
-                    case 2: check(std::move(x).and_then(f)); break; // f takes auto&&: nothing is moved
+                    // lvalue / const lvalue: std copies the error into the result, the source must be unchanged
+                    case 0: check(x.and_then(f)), err = err.empty() ? source_unchanged("and_then() &") : err; break;
+                    case 1: check(std::as_const(x).and_then(f)), err = err.empty() ? source_unchanged("and_then() const&") : err; break;
+                    case 2: {
+                        check(std::move(x).and_then(f)); // f takes auto&&: the value is not moved; std moves the error into the result
+                        if (!mx.r.has && terr) { mx.emasked = true; }
+                        break;
+                    }
                     default: check(std::move(std::as_const(x)).and_then(f)); break;
                     }
                     break;
@@ -321,7 +355,7 @@ struct Exp {
                     int calls = 0, seen = -1;
                     auto f = [&](auto&& e) -> G {
                         ++calls;
-                        seen = e.code;
+                        seen = ecode(e);
                         if (seen % 2 == 0) { return G(etl::in_place, seen + 50); }
                         return G(etl::unexpect, seen * 3L);
                     };
@@ -331,6 +365,7 @@ struct Exp {
                             err = "or_else called f " + std::to_string(calls) + " times although has_value() is " + b2s(mx.r.has);
                             return;
                         }
+                        if (mx.errmasked()) { return; } // f saw a moved-from error: its answer is unspecified
                         auto want = mx.r.or_else(fm);
                         if (!mx.r.has && seen != mx.r.e) {
                             err = "or_else passed error " + std::to_string(seen) + " to f, the error is " + std::to_string(mx.r.e);
@@ -344,10 +379,13 @@ struct Exp {
                     };
                     if (mx.r.has) { chain_on_value = true; } else { chain_on_error = true; }
                     if (code == Q_OR_ELSE) {
+                        // lvalue / const lvalue: std copies the value into the result, the source must be unchanged
                         if ((op.b & 1U) != 0) {
                             check(x.or_else(f));
+                            if (err.empty()) { err = source_unchanged("or_else() &"); }
                         } else {
                             check(std::as_const(x).or_else(f));
+                            if (err.empty()) { err = source_unchanged("or_else() const&"); }
                         }
                     } else {
                         if ((op.b & 1U) != 0) {
@@ -355,7 +393,7 @@ struct Exp {
                         } else {
                             check(std::move(std::as_const(x)).or_else(f));
                         }
-                        if (mx.r.has && tracked && (op.b & 1U) != 0) { mx.masked = true; } // std moves the value into the result
+                        if (mx.r.has && tval && (op.b & 1U) != 0) { mx.masked = true; } // std moves the value into the result
                     }
                     break;
                 }
@@ -373,6 +411,12 @@ struct Exp {
                     if (&r2 != &r1 || &r3 != &r1 || &r4 != &r1 || r1.code != v || b.error().code != w || c.error().code != v) { err = "unexpected<E>: construction / error() wrong"; }
                     if ((a == b) != (v == w) || (a != b) != (v != w) || !(a == c)) { err = "unexpected<E>: operator== wrong"; }
                     if ((etl::unexpected<int>(v) == etl::unexpected<long>(static_cast<long>(w))) != (v == w)) { err = "unexpected<int> == unexpected<long> wrong"; }
+                    {
+                        // unordered payload: == must forward to == of the errors (NaN == NaN is false, NaN != NaN is true)
+                        double const nan = std::numeric_limits<double>::quiet_NaN();
+                        etl::unexpected<double> un(nan), u1(1.0);
+                        if ((un == un) || !(un != un) || (un == u1) || !(un != u1) || !(u1 == u1) || (u1 != u1)) { err = "unexpected<double>: operator== / != wrong for NaN"; }
+                    }
                     switch (op.a % 3) {
                     case 0: a.swap(b); break;
                     case 1: swap(a, b); break;
@@ -427,18 +471,18 @@ struct Config {
 // One source, several executables: -DC07_ONLY=<i> builds only configuration i (the registry lists one harness per
 // configuration so that they compile in parallel); configuration ids in case strings are the same in every build.
 #if !defined(C07_ONLY) || C07_ONLY == 0
-    #define C07_RUN0 &Exp<int>::run
+    #define C07_RUN0 &Exp<int, Err>::run
 #else
     #define C07_RUN0 nullptr
 #endif
 #if !defined(C07_ONLY) || C07_ONLY == 1
-    #define C07_RUN1 &Exp<TCM>::run
+    #define C07_RUN1 &Exp<TCM, MErr>::run
 #else
     #define C07_RUN1 nullptr
 #endif
 Config const configs[] = {
     {"expected<int,Err>", C07_RUN0},
-    {"expected<NonTriv,Err>", C07_RUN1},
+    {"expected<NonTriv,MErr>", C07_RUN1}, // MErr: error type with a visible (payload-resetting) move constructor
 };
 constexpr std::uint32_t nconfigs = sizeof(configs) / sizeof(configs[0]);
 
